@@ -247,7 +247,15 @@ type vfBody struct {
 	closed int
 	reads  int
 	asked  int
+	// bytes of the body that were already in the client's buffered reader when
+	// the head had been parsed, and the connection the rest arrives on: once that
+	// connection is closed only the buffered part can still be read
+	buffered int
+	conn     *vfConn
 }
+
+// vfBodyConn is the transport the next modelled response arrives on (nil: not tracked).
+var vfBodyConn *vfConn
 
 func (b *vfBody) Read(p []byte) (int, error) {
 	b.reads++
@@ -256,6 +264,14 @@ func (b *vfBody) Read(p []byte) (int, error) {
 		return 0, io.EOF
 	}
 	m := len(b.data) - b.pos
+	if b.conn != nil && b.conn.closed > 0 {
+		if b.pos >= b.buffered {
+			return 0, net.ErrClosed
+		}
+		if m > b.buffered-b.pos {
+			m = b.buffered - b.pos
+		}
+	}
 	if vfBodyChunk > 0 && m > vfBodyChunk {
 		m = vfBodyChunk // the body arrives in several reads
 	}
@@ -292,7 +308,7 @@ func vfReadResponse(br *bufio.Reader, req *http.Request) (*http.Response, error)
 		return nil, spec.err
 	}
 	resp := &http.Response{Status: spec.status, StatusCode: spec.statusCode, Proto: "HTTP/1.1", ProtoMajor: 1, ProtoMinor: 1,
-		Header: spec.header, Body: &vfBody{data: spec.body}, Request: req}
+		Header: spec.header, Body: &vfBody{data: spec.body, buffered: br.Buffered(), conn: vfBodyConn}, Request: req}
 	// as net/http reports it for a head without Content-Length / Transfer-Encoding:
 	// no body allowed for 1xx, 204, 304 (length 0), otherwise close-delimited (-1)
 	if c := spec.statusCode; !(c/100 == 1 || c == 204 || c == 304) {
